@@ -11,4 +11,4 @@ func init() {
 }
 
 // C09Cells is the size of the fault x construct catalog (checked against trace.NFaultCells by the worker).
-const C09Cells = 425
+const C09Cells = 540
